@@ -468,6 +468,23 @@ def session_traces(chk, curve, n, fl, what, seed_off=0):
     return progs, sums, rej
 
 
+def table_lives(chk, curve, n, maxcap, maxparties, maxops, what, seed_off=0):
+    """Table-only traces on any curve (generator values as encodings): random lives of two tables per run - new, increase_capacity, clone,
+    serialise + deserialise, aggregated views - validated against Library.tla (every stored table and view is a window of ONE generator
+    function for the whole trace file)."""
+    tp = chk.path("life_%s.ndjson" % curve)
+    harness("genslife", "--curve", curve, "--seed", chk.seed + seed_off, "--n", n, "--maxcap", maxcap, "--maxparties", maxparties, "--maxops", maxops, "--out", tp)
+    acc, rej = validate_traces(chk, tp, "tables", flags=flags(G=1), jobs=4)
+    for rj in rej:
+        rj["curve"] = curve
+    report_rejects(chk, rej, what)
+    evs = read_ndjson(tp)
+    for e in evs:
+        if e.get("ev") == "gens":
+            chk.count_case([curve, e.get("g"), e.get("argcap"), e.get("argparties"), e.get("n"), e.get("m"), e.get("cap"), e.get("parties")])
+    return acc, rej
+
+
 def validate_aux(chk, trace_file, curve, jobs=12, timeout=1500, what="aux", env=None):
     """Validate a stateless-component trace (TraceAux.tla): events are independent, so a rejected event is cut out and the
     rest validated again. Returns (events_accepted, rejected_events)."""
